@@ -429,6 +429,8 @@ type C12cSc struct {
 	Nodes   []C12Node
 	Seeds   []int
 	SeqArg  *int64
+	// LoopLast: the lookup's run loop is scheduled last on every pass (see runLoopLast)
+	LoopLast bool
 }
 
 var c12Replies = []string{"genuine", "genuine", "genuine", "forged-value", "other-key", "stale", "no-v", "no-k", "no-sig", "no-seq", "no-token", "int-token", "silent", "error", "plain", "plain"}
@@ -456,6 +458,7 @@ func genC12c(t *rapid.T) C12cSc {
 		s := rapid.Int64Range(0, 6).Draw(t, "seqargval")
 		sc.SeqArg = &s
 	}
+	sc.LoopLast = uniformInt(t, 4, "looplast") == 0
 	return sc
 }
 
@@ -480,6 +483,10 @@ func runC12c(sc C12cSc, c *kit.Case) *kit.Violation {
 	}
 	sv := newSrv(SrvOpts{NodeID: [20]byte{0xc1, 3}, Starting: seeds})
 	defer sv.Close()
+	if sc.LoopLast {
+		c.Label("run-loop-always-last")
+		defer runLoopLast(sv)()
+	}
 	net1 := newSimNet(sv)
 	type validReply struct {
 		seq  int64
